@@ -15,8 +15,8 @@ CHECKS = {
    "2.6e5 (quick) op lists with sync envelopes at generated positions inside update bursts, by 1-3 remotes, with and without a preceding link, stalled or not, tiny lane buffers so that lane events are still queued when the snapshot is taken: linked comes first and once, every sync is answered by synced, at each synced every key of the replica (value lane: its value) matches a state the lane held at some instant between the sync request being written and synced being read, and afterwards the C01/C02 convergence rules hold for every remote.",
    "Trusts: the window [request written, synced read] is wider than the true window, so the check is sound but not tight. Known findings excluded by precondition-guarded signatures: map-lane sync without a prior link loses entries whose live event is popped before the implicit link; synced is emitted while events that were pending at request time are still queued (proposed lane-level repair judged too large: fixes/C03-*.diff).",
    "DESIGN.md §4 C03"),
- "C10": ("pure", "exploration",
-   "property-based testing of every codec pair: generated message sequences under exhaustive single splits, byte-wise and random multi-splits (round trip + exact consumption), and layout-aware byte-level mutations (tags, length fields, ids, truncation) run in child processes; libFuzzer-style structured mutation without coverage feedback",
+ "C10": ("pure+fuzz", "exploration",
+   "property-based testing of every codec pair: generated message sequences under exhaustive single splits, byte-wise and random multi-splits (round trip + exact consumption), and layout-aware byte-level mutations (tags, length fields, ids, truncation) run in child processes; coverage-guided libFuzzer target codec_stream (chunked == one-shot on arbitrary bytes) in the thorough tier",
    "29 decoder families (lane requests/responses, map messages/operations, store init/response, downlink notifications/operations, command messages, routed requests/responses, WithLengthBytesCodec, WithLenRecognizerDecoder), each fed by every encoder the repository pairs it with: streams of 1-8 messages at every single split point, one byte per read and random multi-splits must decode to exactly what was encoded with exactly the frame's bytes consumed (3e3 streams per family quick); 1.2e4 mutated streams per family (invalid/other tag, lengths 0 / len+-k / 2^32 / 2^61.. / u64::MAX-k, id and body bytes, truncation, insert, delete) must never panic, abort or hang, must decode intact prefix frames exactly, must reject invalid tags, never produce a message from a truncated or overrun frame, and raw decoders must re-encode to the bytes they consumed.",
    "Trusts: the wire-layout model used to aim mutations (self-checked against the encoders). Known findings excluded by signature: the typed map decoder ignores the record size of a Clear frame; the command decoder ignores undefined flag bits; a body length on a body-less routed message (typed half).",
    "DESIGN.md §4 C10"),
@@ -85,7 +85,7 @@ CHECKS = {
    "Generated legal notification sequences (linked, events incl. take/drop/clear, synced, unlinked, relink) x events_when_not_synced x terminate_on_unlinked x interleaved local writes are encoded with the real notification codec and fed to the real swimos_downlink value/map tasks and to downlinks hosted by a real agent; every callback (kind, key, old/new value, map argument, on_synced state) must equal a reference fold written from the statement, and the two implementations must produce the same normalised callback trace. Arbitrary-order sequences are checked for panics/hangs only. 1.4e5 cases quick.",
    "Trusts: the reference fold in harness/c08/src/model.rs; frames are delivered whole (a decoder defect that belongs to C09 makes byte-wise delivery of numbers unsound); event downlinks and corrupt frames are not covered.",
    "DESIGN.md §4 C08"),
- "C18": ("pure", "exploration",
+ "C18": ("pure+fuzz", "exploration",
    "property-based testing: grammar-generated route patterns, parameter maps, pattern pairs/sets with synthesised URIs and malformed patterns against round-trip / determinism / ambiguity-implication oracles, incl. the real ServerBuilder route check; libFuzzer target for the thorough tier",
    "1.42e6 generated cases (quick): unapply(apply(p,m)) == m; matching is a function of the URI (unapply_str == unapply_route_uri . parse, repeatable, no empty binding); p and q both match some URI => are_ambiguous(p,q) in both orders, hence in every accepted set (also through the real ServerBuilder::build with and without introspection) a URI resolves to at most one route; injected structural faults are rejected and arbitrary text never panics.",
    "Trusts: `at most one agent definition` is evaluated as `at most one route-table entry matches` (Routes::find_route is private and returns the first match). Over-reporting of ambiguity is outside the statement.",
@@ -136,7 +136,7 @@ def main():
         hooks_commits = [l.split()[0] for l in open(hf) if l.strip()]
     m = {
         "version": 1,
-        "setup_cmd": "cd /verif/harness && CARGO_NET_OFFLINE=true cargo build --offline --bins",
+        "setup_cmd": "cd /verif/harness && CARGO_NET_OFFLINE=true cargo build --offline --bins && cd /verif/fuzz && CARGO_NET_OFFLINE=true cargo +nightly fuzz build --fuzz-dir /verif/fuzz",
         "hooks": {
             "guard": "cargo feature `verif-hooks` (off by default) on swimos_runtime / swimos_server_app / swimos_remote",
             "enable": "the harness crates depend on the repo crates by path with features=[\"verif-hooks\"]; nothing is enabled in /repo's own workspace",
@@ -152,6 +152,7 @@ def main():
             {"name": "store", "path": "/verif/harness/c13", "serves_properties": ["C13"], "kind_free_text": "model-based histories on RocksDB (real directories, reopen, child-process SIGKILL) and the in-memory store"},
             {"name": "socket", "path": "/verif/harness/c11", "serves_properties": ["C11"], "kind_free_text": "two real RemoteTasks over an in-memory websocket, harness relay that records and injects frames; pure ReconEncoder/peeler round trip; MultiReader model check"},
             {"name": "dlrt", "path": "/verif/harness/c07", "serves_properties": ["C07"], "kind_free_text": "real Value/MapDownlinkRuntime polled by the harness; legal remote lane model and N consumers driven by a generated op list"},
+            {"name": "fuzz", "path": "/verif/fuzz", "serves_properties": ["C09","C10","C15","C18"], "kind_free_text": "cargo-fuzz / libFuzzer targets (recon_parse, codec_stream, compare_hash, route_pattern) with the semantic oracle inside the target; quick replays the committed corpus + saved crash artifacts, thorough runs a seeded campaign (fresh temp corpus, crash => VIOLATION, timeout/oom => exit 2)"},
             {"name": "pure", "path": "/verif/harness/c09 c10 c15 c16 c18 c19 (+ vgen, vcommon)", "serves_properties": ["C09","C10","C15","C16","C18","C19"], "kind_free_text": "proptest TestRunner / bounded-exhaustive enumeration over pure functions with explicit oracles"},
         ],
         "checks": checks,
